@@ -159,8 +159,14 @@ theorem cause_computable_iff (x : Input) (r c k : Int) :
 /-! ### one cell through `cv_masked` -/
 
 /-- the computed planes are the textbook value inside both images, NaN elsewhere (proved per measure) -/
-def RawOK (x : Input) : Prop :=
-  ∀ k r c : Int, rawPlane x k r c = if LeftInside x r c ∧ RightInside x c k then valueSpec x r c k else .nan
+def RawOK (x : Input) (val : Int → Int → Int → Cell) : Prop :=
+  ∀ k r c : Int, rawPlane x k r c = if LeftInside x r c ∧ RightInside x c k then val r c k else .nan
+
+/-- the cell prescribed by the statement, for a given value function (`valueSpec x` is the textbook one) -/
+def specCellWith (val : Int → Int → Int → Cell) (x : Input) (r c k : Int) : Cell :=
+  if cause x r c k = .computable then val r c k else .nan
+
+theorem specCell_eq_with (x : Input) (r c k : Int) : specCell x r c k = specCellWith (valueSpec x) x r c k := rfl
 
 theorem addMask_nan (m : Val) : Cell.nan.addMask m = Cell.nan := by cases m <;> rfl
 
@@ -202,11 +208,12 @@ theorem maskShift_eq (x : Input) (h : Shape x) (r c k : Int) (hl : LeftInside x 
       cases maskOk (half x.w) x.mR r (c + k / (x.sp : Int) + 1) <;> simp
 
 /-- the body of one iteration of the first loop of `cv_masked`, applied to the plane of its own disparity -/
-theorem masked_cell (x : Input) (h : Shape x) (hraw : RawOK x) (gmin : Int) (raw : Volume) (k r c : Int) (j : Nat)
+theorem masked_cell (x : Input) (h : Shape x) (val : Int → Int → Int → Cell) (hraw : RawOK x val)
+    (gmin : Int) (raw : Volume) (k r c : Int) (j : Nat)
     (hj : j = (k - gmin * (x.sp : Int)).toNat) (hrawj : raw r c j = rawPlane x k r c) :
     cvMaskedStep x gmin raw k r c j =
       if LeftInside x r c ∧ RightInside x c k ∧ maskOk (half x.w) x.mL r c = true ∧ maskOkR x r c k = true
-      then valueSpec x r c k else .nan := by
+      then val r c k else .nan := by
   have hw := window_eq x h
   have hs := h.sp_pos
   have hf0 := fracBit_nonneg k x.sp
